@@ -15,7 +15,7 @@ import (
 func init() {
 	register(&Def{
 		ID: "C09",
-		Explanation: "Structural necessary conditions of 'typed builders accept exactly conforming data', decided for every assembler implementation of the library (basicnode, bindnode type- and representation-level, generated demo code): (repeat) every map- or struct-typed MapAssembler can reject a repeated key on both key routes - a construction of ErrRepeatedMapKey is reachable in the assembler's local call closure from AssembleEntry, and from AssembleKey's key assembler / AssembleValue / Finish; (unionone) union map assemblers consult the already-set member before opening a second entry; (required) Finish of every struct assembler can report ErrMissingRequiredField; (fieldnil) the possibly-nil result of TypeStruct.Field is nil-tested before use in bindnode; (assert) a value that may be an error-carrying assembler is never force-asserted to another type; (kindgate) every mutation of the bound Go value in the reflection assembler's scalar Assign* is behind a passed kind-compatibility check. " +
+		Explanation: "Structural necessary conditions of 'typed builders accept exactly conforming data', decided for every assembler implementation of the library (basicnode, bindnode type- and representation-level, generated demo code): (repeat) every map- or struct-typed MapAssembler can reject a repeated key on both key routes - a construction of ErrRepeatedMapKey is reachable in the assembler's local call closure from AssembleEntry, and from AssembleKey's key assembler / AssembleValue / Finish; (unionone) union map assemblers consult the already-set member before opening a second entry; (required) Finish of every struct assembler can report ErrMissingRequiredField; (fieldnil) the possibly-nil result of TypeStruct.Field is nil-tested before use in bindnode; (assert) a value that may be an error-carrying assembler is never force-asserted to another type; (kindgate) every mutation of the bound Go value in the reflection assembler's scalar Assign* is behind a passed kind-compatibility check.  (arity) a fixed-arity list assembler refuses to finish short; (enummember) a type-level AssignString consults the enum members; every successful return of a function that rejects a repeated key on an index look-up lies beyond that look-up." +
 			"Acceptance <=> conformance in general and error quality are not decided.",
 		NotCovered: []string{"acceptance <=> conformance in general", "error quality / which call reports the rejection", "the AssembleKey route of bindnode reports a repeated key at the first value assignment rather than when the key is supplied"},
 		Trusted:    []string{"go/ssa, go/types, VTA call graph (used only to resolve interface calls that have a single module callee)"},
